@@ -657,7 +657,7 @@ def _moment_run(case, seed0, nseeds, tags):
     m1 = np.empty((nseeds, dim))
     m2 = np.empty((nseeds, dim))
     acc_p2 = np.zeros(dim)
-    acc_z = acc_zz = 0.0
+    acc_z = acc_zz = acc_z12 = 0.0
     for s in range(nseeds):
         f = np.asarray(lib(srf, pos, seed=seed0 + s, _what="SRF call", _tags=tags), dtype=float)
         d = f - mu[:, None]
@@ -667,6 +667,7 @@ def _moment_run(case, seed0, nseeds, tags):
         acc_p2 += np.sum(projector(k) ** 2, axis=1)
         acc_z += float(z1.sum() + z2.sum())
         acc_zz += float(np.sum(z1 * z1) + np.sum(z2 * z2))
+        acc_z12 += float(np.sum(z1 * z2))
     g = float(spec["nugget"])
     vw = mean_u**2 * spec["var"] * M2[dim]
     v = vw + g
@@ -682,11 +683,14 @@ def _moment_run(case, seed0, nseeds, tags):
         z["var"] = (m2.mean(axis=0) - v) / se2
         nm = nseeds * n_modes
         z["dir"] = (acc_p2 / nm - M2[dim]) / np.sqrt((M4[dim] - M2[dim] ** 2) / nm)
-        z["z1z2"] = np.array([acc_z / (2 * nm) / math.sqrt(1 / (2 * nm)), (acc_zz / (2 * nm) - 1.0) / math.sqrt(2 / (2 * nm))])
+        # Var(z1 cos + z2 sin) = 1 at every phase needs E z = 0, E z^2 = 1 and E z1 z2 = 0
+        z["z1z2"] = np.array(
+            [acc_z / (2 * nm) * math.sqrt(2 * nm), (acc_zz / (2 * nm) - 1.0) * math.sqrt(nm), acc_z12 / nm * math.sqrt(nm)]
+        )
     info["mean"] = (m1.mean(axis=0) + mu, mu)
     info["var"] = (m2.mean(axis=0), v)
     info["dir"] = (acc_p2 / nm, M2[dim])
-    info["z1z2"] = (np.array([acc_z / (2 * nm), acc_zz / (2 * nm)]), np.array([0.0, 1.0]))
+    info["z1z2"] = (np.array([acc_z / (2 * nm), acc_zz / (2 * nm), acc_z12 / nm]), np.array([0.0, 1.0, 0.0]))
     for kk in z:
         z[kk] = np.where(np.isfinite(z[kk]), z[kk], np.inf)
     return z, info
@@ -696,7 +700,7 @@ WHAT = {
     "mean": "mean of component {j} over seeds",
     "var": "variance of component {j} about (U,0[,0]) over seeds",
     "dir": "mean of p_{j}(k)^2 over all modes (law of the wave-vector directions)",
-    "z1z2": "moment {j} (0: mean, 1: mean square) of the amplitudes z1, z2",
+    "z1z2": "moment {j} (0: mean, 1: mean square, 2: mean of z1*z2) of the amplitudes z1, z2",
 }
 
 
